@@ -44,7 +44,11 @@ Proof.
     { rewrite forallb_forall in Hi. clear -Hi. induction args as [|x args IH]; [reflexivity|]. simpl.
       assert (Hx : is_tv x = false) by (specialize (Hi x (or_introl eq_refl)); destruct x; try reflexivity; discriminate).
       rewrite Hx. apply IH. intros y Hy. apply Hi. now right. }
-    now rewrite Hf.
+    assert (Hg : filter generic_tv_member args = []).
+    { rewrite forallb_forall in Hi. clear -Hi. induction args as [|x args IH]; [reflexivity|]. simpl.
+      assert (Hx : generic_tv_member x = false) by (unfold generic_tv_member; now rewrite (Hi x (or_introl eq_refl))).
+      rewrite Hx. apply IH. intros y Hy. apply Hi. now right. }
+    now rewrite Hf, Hg.
   - (* Generic *)
     rewrite forallb_forall in Hi. rewrite Forall_forall in H.
     assert (Hall : forall a0, In a0 args -> forall w, matched false a0 w = []) by (intros a0 Ha w; apply H; auto).
